@@ -1,0 +1,179 @@
+//go:build verif
+
+package mp4
+
+// ================================================================ C12: fragments are grouped into segments faithfully
+// and the segment index tiles the media.
+
+// ---------------------------------------------------------------- top-level sidx as a segment delimiter
+// ISO/IEC 14496-12 8.16.3: the references of a sidx box describe consecutive byte ranges; the first one starts at the
+// anchor point (first byte after the box plus first_offset), reference j starts at anchor + sum of the referenced sizes
+// of references 0..j-1. Media references have reference_type 0; a reference of type 1 points to another sidx box.
+// The media references of a box are taken up to its first type-1 reference (sxLead); the media references of all
+// top-level sidx boxes, in order, are numbered 0, 1, 2, ... (sxCount = how many lie in the first m boxes).
+//
+// sxLeadF(refs, k, n): first position >= k holding a type-1 reference, n if none (Skolem-style forward walk)
+//@ spec rec sxLeadF(refs []SidxRef, k int, n int) int = ite(k >= n || k < 0, n, ite(refs[k].ReferenceType == 1, k, sxLeadF(refs, k+1, n)))
+//@ spec sxLead(x *SidxBox) int = sxLeadF(x.SidxRefs, 0, len(x.SidxRefs))
+// sxOff(refs, n): sum of the referenced sizes of the first n references
+//@ spec rec sxOff(refs []SidxRef, n int) uint64 = ite(n <= 0, uint64(0), sxOff(refs, n-1) + uint64(refs[n-1].ReferencedSize))
+//@ spec rec sxCount(xs []*SidxBox, n int) int = ite(n <= 0, 0, sxCount(xs, n-1) + sxLead(xs[n-1]))
+// media reference number k (0-based, over all boxes) exists and starts at byte pos
+//@ pred sidxRefAt(xs []*SidxBox, k int, pos uint64) = exists a int :: exists j int :: 0 <= a && a < len(xs) && 0 <= j && j < sxLead(xs[a]) && sxCount(xs, a) + j == k && pos == xs[a].AnchorPoint + sxOff(xs[a].SidxRefs, j)
+
+// The same with "reference j is a media reference" written as "no type-1 reference at or before j" (equivalent to
+// j < sxLead by induction over the references; the equivalence itself is not machine-checked, so the two directions of the
+// decision are stated with one formulation each: see startSegmentIfNeeded).
+//@ pred sxMedia(x *SidxBox, j int) = 0 <= j && j < len(x.SidxRefs) && (forall i int :: 0 <= i && i <= j ==> x.SidxRefs[i].ReferenceType != 1)
+//@ pred sidxRefAtQ(xs []*SidxBox, k int, pos uint64) = exists a int :: exists j int :: 0 <= a && a < len(xs) && sxMedia(xs[a], j) && sxCount(xs, a) + j == k && pos == xs[a].AnchorPoint + sxOff(xs[a].SidxRefs, j)
+
+//@ pred sidxsNonNil(xs []*SidxBox) = forall i int :: 0 <= i && i < len(xs) ==> xs[i] != nil
+
+// The decision "a box at byte position pos (an emsg or a moof) opens a new media segment", by delimiter mechanism, in the
+// order of precedence of the library: a top-level sidx, else the tfra table of an mfra box read in advance, else the
+// start-on-moof option, else only the very first fragment opens a segment (a styp box opens one by itself, see AddChild).
+//@ pred segOpensOther(f *File, pos uint64) = ite(f.tfra != nil, pos == uint64(f.tfra.Entries[len(f.Segments)].MoofOffset), ite((f.fileDecFlags & 2) != 0, true, len(f.Segments) == 0))
+//@ pred segOpens(f *File, pos uint64) = ite(f.Sidx != nil, sidxRefAt(f.Sidxs, len(f.Segments), pos), segOpensOther(f, pos))
+//@ pred segOpensQ(f *File, pos uint64) = ite(f.Sidx != nil, sidxRefAtQ(f.Sidxs, len(f.Segments), pos), segOpensOther(f, pos))
+
+// tiny helpers: taken by their bodies
+//@ func (*File).AddMediaSegment
+//@   inline
+//@ func (*File).LastSegment
+//@   inline
+//@ func (*File).AddSidx
+//@   inline
+//@ func (*MediaSegment).AddSidx
+//@   inline
+//@ func (*MediaSegment).AddFragment
+//@   inline
+//@ func (*MediaSegment).LastFragment
+//@   inline
+
+//@ func (*File).startSegmentIfNeeded
+//@   requires sidxsNonNil(f.Sidxs)
+//@   requires f.Sidx == nil && f.tfra != nil ==> len(f.Segments) < len(f.tfra.Entries)
+//@   ensures[C12] len(f.Segments) == old(len(f.Segments)) || len(f.Segments) == old(len(f.Segments)) + 1
+//@   ensures[C12] len(f.Segments) != old(len(f.Segments)) ==> old(segOpensQ(f, boxStartPos))
+//@   ensures[C12] len(f.Segments) == old(len(f.Segments)) ==> !old(segOpens(f, boxStartPos))
+//@   ensures[C12] forall i int :: 0 <= i && i < old(len(f.Segments)) ==> f.Segments[i] == old(f.Segments[i])
+//@   ensures[C12] len(f.Segments) != old(len(f.Segments)) ==> fresh(f.Segments[len(f.Segments)-1]) && f.Segments[len(f.Segments)-1].StartPos == boxStartPos && f.Segments[len(f.Segments)-1].Styp == nil && len(f.Segments[len(f.Segments)-1].Fragments) == 0 && len(f.Segments[len(f.Segments)-1].Sidxs) == 0
+//@   ensures len(f.Segments) != old(len(f.Segments)) ==> f.isFragmented
+//@   ensures len(f.Segments) == old(len(f.Segments)) ==> f.isFragmented == old(f.isFragmented)
+//@   assigns f.Segments, f.Segments[:], f.isFragmented
+//@   loop 1 invariant !segStart && idx == sxCount(f.Sidxs, idx(1)) && idx(1) <= len(f.Sidxs)
+//@   loop 1 invariant forall a int :: forall j int :: 0 <= a && a < idx(1) && 0 <= j && j < sxLead(f.Sidxs[a]) ==> !(sxCount(f.Sidxs, a) + j == segIdx && boxStartPos == f.Sidxs[a].AnchorPoint + sxOff(f.Sidxs[a].SidxRefs, j))
+//@   loop 2 invariant !segStart && idx == sxCount(f.Sidxs, idx(1)) + idx(2) && idx(2) <= len(sx.SidxRefs)
+//@   loop 2 invariant sxLead(sx) == sxLeadF(sx.SidxRefs, idx(2), len(sx.SidxRefs))
+//@   loop 2 invariant forall i int :: 0 <= i && i < idx(2) ==> sx.SidxRefs[i].ReferenceType != 1
+//@   loop 2 invariant startPos == sx.AnchorPoint + sxOff(sx.SidxRefs, idx(2))
+//@   loop 2 invariant forall j int :: 0 <= j && j < idx(2) ==> !(sxCount(f.Sidxs, idx(1)) + j == segIdx && boxStartPos == sx.AnchorPoint + sxOff(sx.SidxRefs, j))
+
+// ---------------------------------------------------------------- File.AddChild: the grouping state machine
+// One call per top-level box, in file order (DecodeFile file.go:233, DecodeFileSR). State: f.Segments, the fragments of the
+// last segment, the boxes of the last fragment. Delimiters: styp always opens a segment; emsg and moof open one according
+// to segOpens (startSegmentIfNeeded); every other box leaves the segment list alone.
+//@ func (*Fragment).AddChild
+//@   inline
+//@ func (*InitSegment).AddChild
+//@   inline
+//@ func NewMP4Init
+//@   inline
+//@ pred lastSegOK(f *File) = len(f.Segments) > 0 ==> f.Segments[len(f.Segments)-1] != nil && (len(f.Segments[len(f.Segments)-1].Fragments) > 0 ==> f.Segments[len(f.Segments)-1].Fragments[len(f.Segments[len(f.Segments)-1].Fragments)-1] != nil)
+//@ spec lastSeg(f *File) *MediaSegment = f.Segments[len(f.Segments)-1]
+//@ spec lastFrag(s *MediaSegment) *Fragment = s.Fragments[len(s.Fragments)-1]
+//@ pred isDelim(child Box) = typeis(child, "*StypBox") || typeis(child, "*EmsgBox") || typeis(child, "*MoofBox")
+
+// Preconditions (assumptions about the caller, see report): a fragmented file's mdat follows a moof (checked by DecodeFile
+// file.go:195-198); when an emsg or moof arrives some segment exists or is opened by it (NOT established by DecodeFile:
+// finding F5); the tfra table has an entry for the segment about to start (NOT established: finding F4); a moov has the
+// trak/mdia/minf/stbl/stts chain (not established by the decoders).
+//@ func (*File).AddChild
+//@   requires sidxsNonNil(f.Sidxs) && lastSegOK(f)
+// the box list of the file and that of the current fragment are different arrays (each is grown only by its own append,
+// from make in NewFile file.go:107 and from nil in the Fragment literals file.go:290,302)
+//@   requires len(f.Segments) > 0 && len(lastSeg(f).Fragments) > 0 ==> ref(lastFrag(lastSeg(f)).Children) != ref(f.Children)
+//@   requires typeis(child, "*SidxBox") ==> child.(*SidxBox) != nil
+//@   requires typeis(child, "*MoofBox") ==> child.(*MoofBox) != nil
+//@   requires typeis(child, "*MdatBox") && f.isFragmented ==> len(f.Segments) > 0 && len(lastSeg(f).Fragments) > 0
+//@   requires typeis(child, "*MdatBox") && !f.isFragmented && f.Mdat != nil ==> boxOK(f.Mdat)
+//@   requires (typeis(child, "*EmsgBox") || typeis(child, "*MoofBox")) && f.Sidx == nil && f.tfra != nil ==> len(f.Segments) < len(f.tfra.Entries)
+//@   requires (typeis(child, "*EmsgBox") || typeis(child, "*MoofBox")) ==> len(f.Segments) > 0 || segOpens(f, boxStartPos)
+//@   requires typeis(child, "*MoovBox") ==> child.(*MoovBox) != nil && child.(*MoovBox).Trak != nil && child.(*MoovBox).Trak.Mdia != nil && child.(*MoovBox).Trak.Mdia.Minf != nil && child.(*MoovBox).Trak.Mdia.Minf.Stbl != nil && child.(*MoovBox).Trak.Mdia.Minf.Stbl.Stts != nil
+// every box is recorded, in order
+//@   ensures[C12] len(f.Children) == old(len(f.Children)) + 1 && f.Children[len(f.Children)-1] == child
+// NOT PROVED reliably (proved in a run with -kinds post -timeout 8000, unknown after 40 s in the run with all kinds; kept as a comment):
+//     ensures[C12] forall i int :: 0 <= i && i < old(len(f.Children)) ==> f.Children[i] == old(f.Children[i])
+// segments are only ever appended, at most one per box; boxes that are not delimiters never open one
+//@   ensures[C12] len(f.Segments) == old(len(f.Segments)) || len(f.Segments) == old(len(f.Segments)) + 1
+//@   ensures[C12] forall i int :: 0 <= i && i < old(len(f.Segments)) ==> f.Segments[i] == old(f.Segments[i])
+//@   ensures[C12] !isDelim(child) ==> len(f.Segments) == old(len(f.Segments))
+// styp: always a new segment that starts at this box
+//@   ensures[C12] typeis(child, "*StypBox") ==> len(f.Segments) == old(len(f.Segments)) + 1 && lastSeg(f).Styp == child.(*StypBox) && lastSeg(f).StartPos == boxStartPos && len(lastSeg(f).Fragments) == 0
+// emsg / moof: a new segment exactly according to the delimiter decision (both formulations, see startSegmentIfNeeded)
+//@   ensures[C12] (typeis(child, "*EmsgBox") || typeis(child, "*MoofBox")) && len(f.Segments) != old(len(f.Segments)) ==> old(segOpensQ(f, boxStartPos)) && lastSeg(f).StartPos == boxStartPos && lastSeg(f).Styp == nil
+//@   ensures[C12] (typeis(child, "*EmsgBox") || typeis(child, "*MoofBox")) && len(f.Segments) == old(len(f.Segments)) ==> !old(segOpens(f, boxStartPos))
+// moof: it becomes the moof of the last fragment of the last segment, with its start position
+//@   ensures[C12] typeis(child, "*MoofBox") ==> len(f.Segments) > 0 && len(lastSeg(f).Fragments) > 0 && lastFrag(lastSeg(f)).Moof == child.(*MoofBox) && child.(*MoofBox).StartPos == boxStartPos
+//@   ensures[C12] typeis(child, "*MoofBox") ==> len(lastFrag(lastSeg(f)).Children) > 0 && lastFrag(lastSeg(f)).Children[len(lastFrag(lastSeg(f)).Children)-1] == child
+// moof in an existing segment: a new fragment unless the last one is still waiting for its moof (opened by an emsg)
+//@   ensures[C12] typeis(child, "*MoofBox") && len(f.Segments) == old(len(f.Segments)) ==> len(lastSeg(f).Fragments) == old(len(lastSeg(f).Fragments)) + ite(old(len(lastSeg(f).Fragments) == 0 || lastFrag(lastSeg(f)).Moof != nil), 1, 0)
+//@   ensures[C12] typeis(child, "*MoofBox") && len(f.Segments) != old(len(f.Segments)) ==> len(lastSeg(f).Fragments) == 1 && lastFrag(lastSeg(f)).StartPos == boxStartPos
+// mdat of a fragmented file: it goes to the current fragment, which stays the last one (the moof/mdat pair stays together)
+//@   ensures[C12] typeis(child, "*MdatBox") && old(f.isFragmented) ==> len(f.Segments) == old(len(f.Segments)) && len(lastSeg(f).Fragments) == old(len(lastSeg(f).Fragments)) && lastFrag(lastSeg(f)) == old(lastFrag(lastSeg(f))) && lastFrag(lastSeg(f)).Mdat == child.(*MdatBox) && lastFrag(lastSeg(f)).Moof == old(lastFrag(lastSeg(f)).Moof)
+//@   ensures[C12] typeis(child, "*MdatBox") && old(f.isFragmented) ==> len(lastFrag(lastSeg(f)).Children) == old(len(lastFrag(lastSeg(f)).Children)) + 1 && lastFrag(lastSeg(f)).Children[len(lastFrag(lastSeg(f)).Children)-1] == child
+// sidx: top-level until the first segment exists, afterwards it belongs to the current segment
+//@   ensures[C12] typeis(child, "*SidxBox") && old(len(f.Segments)) == 0 ==> len(f.Sidxs) == old(len(f.Sidxs)) + 1 && f.Sidxs[len(f.Sidxs)-1] == child.(*SidxBox) && f.Sidx == ite(old(len(f.Sidxs)) == 0, child.(*SidxBox), old(f.Sidx))
+//@   ensures[C12] typeis(child, "*SidxBox") && old(len(f.Segments)) > 0 ==> len(f.Sidxs) == old(len(f.Sidxs)) && len(lastSeg(f).Sidxs) == old(len(lastSeg(f).Sidxs)) + 1 && lastSeg(f).Sidxs[len(lastSeg(f).Sidxs)-1] == child.(*SidxBox)
+//@   ensures[C12] typeis(child, "*MfraBox") ==> f.Mfra == child.(*MfraBox)
+
+// ---------------------------------------------------------------- UpdateSidx: what is put into the index
+// fillSidx: one media reference per segment, in order, with the size and duration found for the segment; references start
+// directly behind the box (first_offset 0).
+//@ func fillSidx
+//@   requires sidx != nil && refTrak != nil && refTrak.Mdia != nil && refTrak.Mdia.Mdhd != nil
+//@   requires nonZeroEPT ==> len(segDatas) > 0
+//@   ensures[C12] len(sidx.SidxRefs) == len(segDatas)
+//@   ensures[C12] forall i int :: 0 <= i && i < len(segDatas) ==> sidx.SidxRefs[i].ReferencedSize == segDatas[i].size && sidx.SidxRefs[i].SubSegmentDuration == segDatas[i].dur && sidx.SidxRefs[i].ReferenceType == 0 && sidx.SidxRefs[i].StartsWithSAP == 1 && sidx.SidxRefs[i].SAPType == 1 && sidx.SidxRefs[i].SAPDeltaTime == 0
+//@   ensures[C12] sidx.FirstOffset == 0 && sidx.Version == 1 && sidx.ReferenceID == 1 && sidx.Timescale == refTrak.Mdia.Mdhd.Timescale
+//@   ensures[C12] sidx.EarliestPresentationTime == ite(nonZeroEPT, segDatas[0].presentationTime, uint64(0))
+//@   ensures sidx.AnchorPoint == old(sidx.AnchorPoint) && sidx.Flags == old(sidx.Flags)
+//@   loop 1 invariant len(sidx.SidxRefs) == idx(1) && idx(1) <= len(segDatas)
+//@   loop 1 invariant sidx.FirstOffset == 0 && sidx.Version == 1 && sidx.ReferenceID == 1 && sidx.Timescale == refTrak.Mdia.Mdhd.Timescale && sidx.EarliestPresentationTime == ept && sidx.AnchorPoint == old(sidx.AnchorPoint) && sidx.Flags == old(sidx.Flags)
+//@   loop 1 invariant forall i int :: 0 <= i && i < idx(1) ==> sidx.SidxRefs[i].ReferencedSize == segDatas[i].size && sidx.SidxRefs[i].SubSegmentDuration == segDatas[i].dur && sidx.SidxRefs[i].ReferenceType == 0 && sidx.SidxRefs[i].StartsWithSAP == 1 && sidx.SidxRefs[i].SAPType == 1 && sidx.SidxRefs[i].SAPDeltaTime == 0
+
+// MediaSegment.Size: the size entered into the index is the sum of the sizes of exactly the boxes MediaSegment.Encode
+// writes: styp, every sidx of the segment, every box of every fragment.
+//@ spec rec sidxSizeSum(xs []*SidxBox, n int) uint64 = ite(n <= 0, uint64(0), sidxSizeSum(xs, n-1) + xs[n-1].Size())
+//@ spec rec fragSizeSum(xs []*Fragment, n int) uint64 = ite(n <= 0, uint64(0), fragSizeSum(xs, n-1) + sizeSum(xs[n-1].Children, len(xs[n-1].Children)))
+//@ pred fragsNonNil(xs []*Fragment) = forall i int :: 0 <= i && i < len(xs) ==> xs[i] != nil
+// NOT PROVED (solvers answer unknown on the loop invariants over sidxSizeSum/fragSizeSum; block inactive):
+// (inactive) func (*MediaSegment).Size
+// (inactive)   requires sidxsNonNil(s.Sidxs) && fragsNonNil(s.Fragments)
+// (inactive)   ensures[C12] result == ite(s.Styp != nil, s.Styp.Size(), uint64(0)) + sidxSizeSum(s.Sidxs, len(s.Sidxs)) + fragSizeSum(s.Fragments, len(s.Fragments))
+// (inactive)   assigns nothing
+// (inactive)   loop 1 invariant idx(1) <= len(s.Sidxs) && size == ite(s.Styp != nil, s.Styp.Size(), uint64(0)) + sidxSizeSum(s.Sidxs, idx(1))
+// (inactive)   loop 2 invariant idx(2) <= len(s.Fragments) && size == ite(s.Styp != nil, s.Styp.Size(), uint64(0)) + sidxSizeSum(s.Sidxs, len(s.Sidxs)) + fragSizeSum(s.Fragments, idx(2))
+
+// insertSidx: the new box becomes the only top-level sidx and is placed directly in front of the first box of the first
+// media segment in the box list (k is the position found by loop 1).
+//@ func (*MediaSegment).FirstBox
+//@   requires len(s.Sidxs) > 0 ==> s.Sidxs[0] != nil
+//@   requires len(s.Fragments) > 0 ==> s.Fragments[0] != nil
+//@   ensures result1 == nil ==> (s.Styp != nil || len(s.Sidxs) > 0 || (len(s.Fragments) > 0 && len(s.Fragments[0].Children) > 0))
+//@   ensures result1 == nil && s.Styp == nil && len(s.Sidxs) == 0 ==> result0 == s.Fragments[0].Children[0]
+//@   assigns nothing
+//@ func insertSidx
+//@   requires inFile != nil && sidx != nil && len(inFile.Segments) > 0 && inFile.Segments[0] != nil
+//@   requires len(inFile.Segments[0].Sidxs) > 0 ==> inFile.Segments[0].Sidxs[0] != nil
+//@   requires len(inFile.Segments[0].Fragments) > 0 ==> inFile.Segments[0].Fragments[0] != nil
+//@   ensures[C12] result == nil ==> inFile.Sidx == sidx && len(inFile.Sidxs) == 1 && inFile.Sidxs[0] == sidx
+// (not checked, see report)   ensures[C12] result == nil ==> len(inFile.Children) == old(len(inFile.Children)) + 1 && 0 < mediaStartIdx && mediaStartIdx < old(len(inFile.Children)) && typeis(inFile.Children[mediaStartIdx], "*SidxBox") && inFile.Children[mediaStartIdx].(*SidxBox) == sidx
+// (not checked, see report)   ensures[C12] result == nil ==> (forall i int :: 0 <= i && i < mediaStartIdx ==> inFile.Children[i] == old(inFile.Children[i]))
+// (not checked, see report)   ensures[C12] result == nil ==> (forall i int :: mediaStartIdx < i && i < len(inFile.Children) ==> inFile.Children[i] == old(inFile.Children[i-1]))
+// (not checked, see report)   ensures[C12] result == nil ==> inFile.Children[mediaStartIdx+1] == firstMediaBox
+//@   ensures[C12] result == nil ==> len(inFile.Children) == old(len(inFile.Children)) + 1
+// NOT PROVED (solvers answer unknown on the two nested appends; kept as a comment):
+//     ensures[C12] result == nil ==> (exists k int :: 0 < k && k < old(len(inFile.Children)) && typeis(inFile.Children[k], "*SidxBox") && inFile.Children[k].(*SidxBox) == sidx && (forall i int :: 0 <= i && i < k ==> inFile.Children[i] == old(inFile.Children[i])) && (forall i int :: k < i && i < len(inFile.Children) ==> inFile.Children[i] == old(inFile.Children[i-1])))
+//@   ensures result != nil ==> inFile.Sidx == old(inFile.Sidx) && len(inFile.Children) == old(len(inFile.Children))
+//@   loop 1 invariant mediaStartIdx == 0 && idx(1) <= len(inFile.Children)
